@@ -338,8 +338,11 @@ func (s *server) DropRowRange(ctx context.Context, req *btapb.DropRowRangeReques
 		return nil, status.Errorf(codes.NotFound, "table %q not found", req.Name)
 	}
 
+	verifPoint("DropRowRange.beforeLock", ctx)
 	tbl.mu.Lock()
 	defer tbl.mu.Unlock()
+	defer verifPoint("DropRowRange.done", ctx)
+	verifPoint("DropRowRange.locked", ctx)
 	if req.GetDeleteAllDataFromTable() {
 		tbl.rows.Clear()
 	} else {
@@ -364,6 +367,7 @@ func (s *server) DropRowRange(ctx context.Context, req *btapb.DropRowRangeReques
 			tbl.rows.Delete(r)
 		}
 	}
+	verifPoint("DropRowRange.afterWrite", ctx)
 	return &emptypb.Empty{}, nil
 }
 
